@@ -295,6 +295,46 @@ def prefix_edit(ctx, rr):
     if not ok:
         rr.fail(ctx.finding('R-PREFIX-EDIT', dl, dl.node, 'delete_webentity does not simply detach the prefixes', stmt='delete detach'))
 
+    # __add_prefixes: strict mode (use_best_case=False) refuses as soon as one prefix is taken, before any id is allocated
+    ap = P.method('Traph', '__add_prefixes')
+    body = ap.node.body
+    fl = [k for k, s_ in enumerate(body) if isinstance(s_, ast.For)]
+    if not fl:
+        raise AnalysisError('R-PREFIX-EDIT: the probing loop of Traph.__add_prefixes is not recognised')
+    taken = None
+    gfa = guard_facts(ctx, ap)
+    for c_ in ast.walk(body[fl[0]]):
+        if isinstance(c_, ast.Call) and isinstance(c_.func, ast.Attribute) and c_.func.attr == 'append' and isinstance(c_.func.value, ast.Name):
+            facts = gfa.facts_at(c_) or set()
+            if any(f[0] == 'T' and f[1].replace(' ', '').endswith('.has_webentity()') for f in facts):
+                taken = c_.func.value.id
+    if taken is None or len(ap.call_params) < 2:
+        raise AnalysisError('R-PREFIX-EDIT: the list of already attached prefixes in Traph.__add_prefixes is not recognised')
+    best = ap.call_params[1]
+    rows = tables(ctx, ap, stmts=body[fl[0] + 1:], iters=1, keep=lambda n, c: n in ('__generated_web_entity_id', 'set_webentity', 'write'))
+    key = {'len(%s)' % taken: 1}
+    def inv_of(r):
+        v = r.lin_known(key, '>=', 1)
+        return r.val.get('truthy:' + taken) if v is None else v
+    seen_inv = any(inv_of(r) is not None for r in rows)
+    if not seen_inv:
+        raise AnalysisError('R-PREFIX-EDIT: Traph.__add_prefixes no longer tests len(%s): decision not recognised' % taken)
+    bad = []
+    for r in rows:
+        inv = inv_of(r)
+        b = r.val.get('truthy:' + best)
+        alloc = r.calls('__generated_web_entity_id')
+        raises = [e for e in r.events if e.kind == 'raise']
+        if inv is True and b is False and (alloc or not raises or raises[0].name != 'TraphException'):
+            bad.append((r, 'a strict request with an already attached prefix is not refused with TraphException'))
+        elif alloc and not (b is True or inv is False):
+            bad.append((r, 'an id is allocated and prefixes are attached without establishing that the request is not strict or that no prefix is taken'))
+        elif raises and not (inv is True and b is False):
+            bad.append((r, 'the request is refused although it is not (strict and partly taken)'))
+    rr.ob(ctx.where(ap), '__add_prefixes: strict and some prefix taken -> TraphException before any id is allocated; otherwise never refused (%d rows)' % len(rows), ok=not bad)
+    for r, msg in bad:
+        rr.fail(ctx.finding('R-PREFIX-EDIT', ap, ap.node, 'Traph.__add_prefixes: ' + msg, detail={'row': r.show()[:300]}, stmt='add_prefixes table'))
+
 
 # ------------------------------------------------------------------------------------------------ R-PAGINATE
 @rule('R-PAGINATE')
@@ -304,16 +344,32 @@ def paginate(ctx, rr):
     P = ctx.P
     for qual, unit_word in (('Traph.paginate_webentity_pages', 'page'), ('Traph.paginate_webentity_pagelinks', 'source page')):
         u = P.unit(qual)
-        outer = [f for f in P.own(u, ast.For) if isinstance(f.iter, ast.Call) and isinstance(f.iter.func, ast.Name) and f.iter.func.id == 'range']
+        outer = [f for f in P.own(u, ast.For) if isinstance(f.iter, ast.Call) and isinstance(f.iter.func, ast.Name) and f.iter.func.id in ('range', 'enumerate')
+                 and any(isinstance(c, ast.Call) and any(t.name == 'webentity_inorder_iter' for t in P.targets(c)) for c in ast.walk(f))]
         if len(outer) != 1:
             raise AnalysisError('R-PAGINATE: prefix loop of %s not recognised' % qual)
         of = outer[0]
+        if of.iter.func.id == 'enumerate':
+            # enumerate(prefixes[START:]) numbers the prefixes from 0 again: the index stored in the next token is relative to this call
+            a0 = of.iter.args[0] if of.iter.args else None
+            st_arg = of.iter.args[1] if len(of.iter.args) > 1 else next((k.value for k in of.iter.keywords if k.arg == 'start'), None)
+            sliced = isinstance(a0, ast.Subscript) and isinstance(a0.slice, ast.Slice) and a0.slice.lower is not None
+            if sliced:
+                okk = st_arg is not None and ast.unparse(st_arg) == ast.unparse(a0.slice.lower)
+                rr.ob(ctx.where(u, of), '%s numbers the prefixes it walks by their position in the full prefix list' % qual, ok=okk)
+                if not okk:
+                    rr.fail(ctx.finding('R-PAGINATE', u, of, '%s enumerates `%s` from %s: after a resume the prefix index written to the next token is relative to the resume point, '
+                                        'so the following call restarts from an earlier prefix (pages repeated) ' % (qual, ast.unparse(a0), ast.unparse(st_arg) if st_arg is not None else 0),
+                                        stmt='%s prefix loop index' % qual))
+                    continue
+            else:
+                raise AnalysisError('R-PAGINATE: prefix loop of %s not recognised (enumerate form)' % qual)
         # token parse feeds (start index, resume path)
         parse = [a for a in P.own(u, ast.Assign) if isinstance(a.value, ast.Call) and any(t.name == 'parse_pagination_token' for t in P.targets(a.value))]
         ok = len(parse) == 1 and len(names_in_target(parse[0].targets[0])) == 2
         START, PATH = names_in_target(parse[0].targets[0]) if ok else (None, None)
-        ra = [ast.unparse(a).replace(' ', '') for a in of.iter.args]
-        ok = ok and ra == [START, 'len(prefixes)']
+        ra = [ast.unparse(a).replace(' ', '') for a in of.iter.args] + [ast.unparse(k.value).replace(' ', '') for k in of.iter.keywords]
+        ok = ok and (ra == [START, 'len(prefixes)'] or (of.iter.func.id == 'enumerate' and ra[:2] == ['prefixes[%s:]' % START, START]))
         rr.ob(ctx.where(u, of), '%s walks prefixes from the index stored in the token to the last one' % qual, ok=ok)
         if not ok:
             rr.fail(ctx.finding('R-PAGINATE', u, of, '%s does not iterate range(<token prefix index>, len(prefixes)): %s' % (qual, ra)))
@@ -591,8 +647,14 @@ def rules_to_apply(ctx, rr):
             srch = r_.calls('search')
             txt = ret[0].text if ret else ''
             ok = ok and bool(srch) and (txt == 'None' or txt.endswith('.group()'))
+            # a successful search is always answered with the match text: no further condition may drop the proposal
+            hit = [v for k, v in r_.val.items() if k.startswith('truthy:') and '.search(' in k]
+            if hit and hit[0] is True and not txt.endswith('.group()'):
+                ok = False
+            if hit and hit[0] is False and txt != 'None':
+                ok = False
         ok = ok and any(([e for e in r_.events if e.kind == 'return'] or [None])[0] is not None and
                         [e for e in r_.events if e.kind == 'return'][0].text.endswith('.group()') for r_ in rws)
         rr.ob(ctx.where(f), '%s returns the text matched by the rule pattern' % nm, ok=ok)
         if not ok:
-            rr.fail(ctx.finding('R-RULES-TO-APPLY', f, f.node, '%s no longer returns regexp.search(lru).group()' % nm, stmt=nm))
+            rr.fail(ctx.finding('R-RULES-TO-APPLY', f, f.node, '%s no longer returns regexp.search(lru).group() whenever the pattern matches (a matching rule is silently not proposed)' % nm, stmt=nm))
